@@ -51,14 +51,15 @@ Lower(s) == CASE s = "RED" -> "red" [] s = "GREEN" -> "green" [] OTHER -> s
 
 \* A key "__typename" in an input object is tolerated whatever its value (clients that echo a
 \* response object back as input) and stays in the coerced value; it stands for no field.
-\* input object In: a: Int!   b: [In]   c: E = RED   d: String! = "dflt"   (d has a default: not required)
-FieldNames == <<"a", "b", "c", "d">>
+\* input object In: a: Int!   b: [In]   c: E = RED   d: String! = "dflt"   (d has a default: not required)   e: [[Int]]
+FieldNames == <<"a", "b", "c", "d", "e">>
 FieldType(f) == CASE f = "a" -> Named("Int", TRUE)
                   [] f = "b" -> ListOf(Named("In", FALSE), FALSE)
                   [] f = "c" -> Named("E", FALSE)
                   [] f = "d" -> Named("String", TRUE)
+                  [] f = "e" -> ListOf(ListOf(Named("Int", FALSE), FALSE), FALSE)
 HasDefault(f) == f \in {"c", "d"}
-IsField(f) == f \in {"a", "b", "c", "d"}
+IsField(f) == f \in {"a", "b", "c", "d", "e"}
 
 Lookup(es, key) == LET idx == {j \in 1..Len(es) : es[j].key = key}
                    IN IF idx = {} THEN <<>> ELSE <<es[CHOOSE j \in idx : TRUE].v>>
